@@ -341,7 +341,8 @@ trait Kind {
 }
 
 fn io_err(e: &std::io::Error) -> String {
-    format!("{:?}:{}", e.kind(), e.to_string().replace('\n', " "))
+    let msg: String = e.to_string().chars().map(|c| if c.is_ascii_graphic() || c == ' ' { c } else { '?' }).collect();
+    format!("{:?}:{}", e.kind(), msg)
 }
 
 
@@ -841,7 +842,362 @@ fn run_case<K: Kind>(case: &Case, out: &mut dyn FnMut(String)) {
     }
 }
 
-fn gen(_tier: &str, _seed: u64) {}
+
+// ---------------------------------------------------------------------------
+// generator
+// ---------------------------------------------------------------------------
+
+struct Gen {
+    rng: Rng,
+    id: u64,
+    reorder: bool,
+}
+
+const NAME_POOL: &[&str] = &[
+    "x", "y", "z", "x0", "x1", "x2", "v_1", "a b", "a_b", "a\tb", "a\nb", " a", "a ", "a  b", "\t", " ", "\n", "_", "__",
+    "_x0", "_x1", "__x2", "___x3", "_x0_a_b", "_f0", "ü", "⊤", "日本", "a\u{7f}b", "\u{1}", "q\r", "name", ".ids", "0", "-1",
+    "_a", "__a", "a\u{a0}b", "T", "F",
+];
+const DD_NAMES: &[&str] = &["dd", "my diagram", "a\nb", " lead", "trail ", "\t", " ", "x\ty\n", "ü⊤", ".nodes", "d"];
+const MT_VALUES: &[&str] = &["0", "1", "2", "-1", "-3", "5", "7", "100", "-9223372036854775808", "9223372036854775807", "+Inf", "-Inf", "NaN"];
+
+impl Gen {
+    fn emit(&mut self, k: &str, dd: &str, nv: u32, extra: &str, ops: &[String]) {
+        println!("CASE {} k={k} dd={dd} nv={nv}{extra}", self.id);
+        for o in ops {
+            println!("{o}");
+        }
+        println!("END");
+        self.id += 1;
+    }
+
+    /// distinct variable names (or unnamed), one token per variable
+    fn var_names(&mut self, nv: u32, style: u64) -> Option<String> {
+        // 0: none, 1: clean all, 2: clean partial, 3: nasty all, 4: nasty partial
+        if style == 0 {
+            return None;
+        }
+        let mut used: Vec<String> = Vec::new();
+        let mut toks = Vec::new();
+        for i in 0..nv {
+            let unnamed = (style == 2 || style == 4) && self.rng.chance(1, 3);
+            if unnamed {
+                toks.push("-".to_string());
+                continue;
+            }
+            let mut name = if style <= 2 { format!("v{i}") } else { self.rng.pick(NAME_POOL).to_string() };
+            let mut tries = 0;
+            while used.contains(&name) {
+                tries += 1;
+                name = if tries > 8 { format!("{name}{i}") } else { self.rng.pick(NAME_POOL).to_string() };
+            }
+            used.push(name.clone());
+            toks.push(name_tok(Some(&name)));
+        }
+        if toks.iter().all(|t| t == "-") {
+            return None;
+        }
+        Some(format!("V {}", toks.join(" ")))
+    }
+
+    fn bool_table(&mut self, nv: u32, support: &[u32], sparse: bool) -> String {
+        // random function of the support variables, lifted to nv variables
+        let k = support.len();
+        let sub: Vec<bool> = (0..(1usize << k))
+            .map(|_| if sparse { self.rng.chance(1, 6) } else { self.rng.chance(1, 2) })
+            .collect();
+        let bits: Vec<bool> = (0..(1usize << nv))
+            .map(|a| {
+                let mut idx = 0;
+                for (j, &v) in support.iter().enumerate() {
+                    if (a >> v) & 1 != 0 {
+                        idx |= 1 << j;
+                    }
+                }
+                sub[idx]
+            })
+            .collect();
+        bits_to_hex(&bits)
+    }
+
+    fn mt_table(&mut self, nv: u32, support: &[u32]) -> String {
+        let k = support.len();
+        let nvals = self.rng.range(1, 5) as usize;
+        let vals: Vec<&str> = (0..nvals).map(|_| *self.rng.pick(MT_VALUES)).collect();
+        let sub: Vec<&str> = (0..(1usize << k)).map(|_| *self.rng.pick(&vals)).collect();
+        let t: Vec<&str> = (0..(1usize << nv))
+            .map(|a| {
+                let mut idx = 0;
+                for (j, &v) in support.iter().enumerate() {
+                    if (a >> v) & 1 != 0 {
+                        idx |= 1 << j;
+                    }
+                }
+                sub[idx]
+            })
+            .collect();
+        t.join(",")
+    }
+
+    fn x_op(&mut self, nfuncs: usize, ver3: bool, ascii: bool, rn: bool, strict: bool, nasty: bool) -> String {
+        let nroots = if self.rng.chance(1, 12) { 0 } else { self.rng.range(1, (nfuncs as u64).min(6)) as usize };
+        let mut roots = Vec::new();
+        for _ in 0..nroots {
+            let i = self.rng.below(nfuncs as u64);
+            if rn {
+                let name: String = if nasty {
+                    if self.rng.chance(1, 5) { String::new() } else { self.rng.pick(NAME_POOL).to_string() }
+                } else {
+                    format!("f{i}")
+                };
+                roots.push(format!("{i}:{}", name_tok(Some(&name))));
+            } else {
+                roots.push(format!("{i}"));
+            }
+        }
+        let dd = if self.rng.chance(1, 3) {
+            "-".to_string()
+        } else if nasty {
+            name_tok(Some(*self.rng.pick(DD_NAMES)))
+        } else {
+            name_tok(Some("dd"))
+        };
+        format!(
+            "X ver={} mode={} strict={} dd={} rn={} roots={}",
+            if ver3 { 3 } else { 2 },
+            if ascii { "a" } else { "b" },
+            strict as u8,
+            dd,
+            rn as u8,
+            if roots.is_empty() { "-".to_string() } else { roots.join(",") }
+        )
+    }
+
+    fn all_x_ops(&mut self, nfuncs: usize, nasty: bool) -> Vec<String> {
+        let mut ops = Vec::new();
+        for ascii in [false, true] {
+            for ver3 in [false, true] {
+                for rn in [false, true] {
+                    let strict = self.rng.chance(1, 2);
+                    ops.push(self.x_op(nfuncs, ver3, ascii, rn, strict, nasty));
+                }
+            }
+        }
+        ops
+    }
+
+    fn perm(&mut self, n: u32) -> Vec<u32> {
+        let mut p: Vec<u32> = (0..n).collect();
+        for i in (1..n as usize).rev() {
+            let j = self.rng.below(i as u64 + 1) as usize;
+            p.swap(i, j);
+        }
+        p
+    }
+
+    /// (A) the 256 functions of three variables, 8 per case, under the six orders
+    fn three_var_cases(&mut self, dd: &str) {
+        const PERMS: [[u32; 3]; 6] = [[0, 1, 2], [0, 2, 1], [1, 0, 2], [1, 2, 0], [2, 0, 1], [2, 1, 0]];
+        let mut funcs: Vec<u32> = (0..256).collect();
+        for i in (1..256usize).rev() {
+            let j = self.rng.below(i as u64 + 1) as usize;
+            funcs.swap(i, j);
+        }
+        for (ci, chunk) in funcs.chunks(8).enumerate() {
+            let p = PERMS[ci % 6];
+            let mut ops = Vec::new();
+            let style = (ci as u64) % 5;
+            if let Some(v) = self.var_names(3, style) {
+                ops.push(v);
+            }
+            for &f in chunk {
+                if dd == "mtbdd" {
+                    // the Boolean function selects between two values
+                    let lo = *self.rng.pick(MT_VALUES);
+                    let hi = *self.rng.pick(MT_VALUES);
+                    let t: Vec<&str> = (0..8u32).map(|a| if (f >> a) & 1 != 0 { hi } else { lo }).collect();
+                    ops.push(format!("F {}", t.join(",")));
+                } else {
+                    // function under the variable numbering p: bit a of g = bit (a permuted) of f
+                    let bits: Vec<bool> = (0..8u32)
+                        .map(|a| {
+                            let mut b = 0;
+                            for v in 0..3 {
+                                if (a >> v) & 1 != 0 {
+                                    b |= 1 << p[v as usize];
+                                }
+                            }
+                            (f >> b) & 1 != 0
+                        })
+                        .collect();
+                    ops.push(format!("F {}", bits_to_hex(&bits)));
+                }
+            }
+            if self.reorder {
+                ops.push(format!("O {}", join(p)));
+            }
+            ops.extend(self.all_x_ops(8, style >= 3));
+            self.emit("valid", dd, 3, "", &ops);
+        }
+    }
+
+    /// (B) random diagrams with up to 10 variables, some of them unused
+    fn random_cases(&mut self, dd: &str, n: usize) {
+        for ci in 0..n {
+            let nv = self.rng.range(1, 10) as u32;
+            let mut ops = Vec::new();
+            let style = self.rng.below(5);
+            if let Some(v) = self.var_names(nv, style) {
+                ops.push(v);
+            }
+            let nf = self.rng.range(1, 5) as usize;
+            for _ in 0..nf {
+                let k = self.rng.range(0, (nv as u64).min(7)) as usize;
+                let mut support = self.perm(nv);
+                support.truncate(k);
+                support.sort_unstable();
+                if dd == "mtbdd" {
+                    ops.push(format!("F {}", self.mt_table(nv, &support)));
+                } else {
+                    let sparse = self.rng.chance(1, 3);
+                    let all: Vec<u32> = (0..nv).collect();
+                    let sup = if sparse && nv <= 10 && self.rng.chance(1, 2) { &all[..] } else { &support[..] };
+                    ops.push(format!("F {}", self.bool_table(nv, sup, sparse)));
+                }
+            }
+            if self.reorder && nv >= 2 {
+                ops.push(format!("O {}", join(self.perm(nv))));
+            }
+            if ci % 3 == 0 {
+                ops.extend(self.all_x_ops(nf, style >= 3));
+            } else {
+                for _ in 0..3 {
+                    let (v, a, r, s) = (self.rng.chance(1, 2), self.rng.chance(1, 2), self.rng.chance(1, 2), self.rng.chance(1, 2));
+                    ops.push(self.x_op(nf, v, a, r, s, style >= 3));
+                }
+            }
+            self.emit("valid", dd, nv, "", &ops);
+        }
+    }
+
+    /// bytes of the file that the ops of a case produce for its first X op
+    fn base_file(dd: &str, nv: u32, ops: &[String]) -> Vec<u8> {
+        fn go<K: Kind>(nv: u32, ops: &[String]) -> Vec<u8> {
+            let m = K::new_mgr(1 << 14, nv);
+            let mut funcs = Vec::new();
+            for line in ops {
+                let tok: Vec<&str> = line.split_whitespace().collect();
+                match tok[0] {
+                    "V" => {
+                        for (i, t) in tok[1..].iter().enumerate() {
+                            if let Some(n) = tok_name(t) {
+                                K::set_name(&m, i as u32, &n);
+                            }
+                        }
+                    }
+                    "F" => funcs.push(K::build(&m, nv, &parse_table(K::BOOLEAN, tok[1], nv)).unwrap()),
+                    "X" => return K::export(&m, &parse_xopts(&tok), &funcs).0,
+                    _ => {}
+                }
+            }
+            Vec::new()
+        }
+        match dd {
+            "bdd" => go::<KBdd>(nv, ops),
+            "bcdd" => go::<KBcdd>(nv, ops),
+            "zbdd" => go::<KZbdd>(nv, ops),
+            "mtbdd" => go::<KMtbdd>(nv, ops),
+            _ => go::<KTdd>(nv, ops),
+        }
+    }
+
+    fn mutation(&mut self, file: &[u8]) -> String {
+        let len = file.len() as u64;
+        // half of the mutations hit the node section
+        let nodes_at = file.windows(7).position(|w| w == b".nodes\n").map(|p| p as u64 + 7).unwrap_or(0);
+        let pos = if self.rng.chance(1, 2) && nodes_at < len { nodes_at + self.rng.below(len - nodes_at) } else { self.rng.below(len) };
+        let interesting: &[u8] = b"0123456789AB -\n\r\t.\x00\x01\x02\x03\x04\xff\x80\x7f\x20\x40\x60TFEB";
+        let byte = match self.rng.below(4) {
+            0 => self.rng.below(256) as u8,
+            1 => *self.rng.pick(interesting),
+            2 => file[self.rng.below(len) as usize],
+            _ => file[pos as usize] ^ (1 << self.rng.below(8)),
+        };
+        match self.rng.below(10) {
+            0..=5 => format!("M r {pos} {byte:02x}"),
+            6..=7 => format!("M i {pos} {byte:02x}"),
+            _ => format!("M d {pos}"),
+        }
+    }
+
+    /// malformed stream for one base file: every truncation point, `nmut` mutations
+    fn mal_cases(&mut self, dd: &str, ascii: bool, nmut: usize) {
+        let nv = self.rng.range(2, 4) as u32;
+        let mut base_ops = Vec::new();
+        let style = *self.rng.pick(&[0u64, 1, 1, 3]);
+        if let Some(v) = self.var_names(nv, style) {
+            base_ops.push(v);
+        }
+        let nf = self.rng.range(1, 3) as usize;
+        for _ in 0..nf {
+            let all: Vec<u32> = (0..nv).collect();
+            if dd == "mtbdd" {
+                base_ops.push(format!("F {}", self.mt_table(nv, &all)));
+            } else {
+                base_ops.push(format!("F {}", self.bool_table(nv, &all, false)));
+            }
+        }
+        let rn = self.rng.chance(1, 2);
+        let ver3 = self.rng.chance(1, 2);
+        base_ops.push(self.x_op(nf, ver3, ascii, rn, false, false));
+        let file = Self::base_file(dd, nv, &base_ops);
+        let mut mops: Vec<String> = (0..file.len()).map(|p| format!("M t {p}")).collect();
+        for _ in 0..nmut {
+            mops.push(self.mutation(&file));
+        }
+        // exhaustive replacement of the bytes of the mode line and of the node section start
+        for chunk in mops.chunks(250) {
+            let mut ops = base_ops.clone();
+            ops.extend(chunk.iter().cloned());
+            self.emit("mal", dd, nv, "", &ops);
+        }
+    }
+
+    /// out-of-memory during import: ASCII BCDD dump (negated edges) into small BDD managers
+    fn oom_cases(&mut self, n: usize) {
+        for _ in 0..n {
+            let nv = self.rng.range(2, 5) as u32;
+            let all: Vec<u32> = (0..nv).collect();
+            let ops_src = vec![format!("F {}", self.bool_table(nv, &all, false)), "X ver=2 mode=a strict=0 dd=- rn=0 roots=0".to_string()];
+            let file = Self::base_file("bcdd", nv, &ops_src);
+            let mut ops = Vec::new();
+            for cap in 0..12 {
+                ops.push(format!("L {cap} raw {}", hex(&file)));
+            }
+            self.emit("mal", "bdd", nv, "", &ops);
+        }
+    }
+}
+
+fn gen(tier: &str, seed: u64) {
+    let thorough = tier == "thorough";
+    let mut g = Gen { rng: Rng::new(seed), id: 0, reorder: std::env::var("VERIF_C15_REORDER").map(|v| v == "1").unwrap_or(false) };
+    for dd in ["bdd", "bcdd", "zbdd", "mtbdd", "tdd"] {
+        g.three_var_cases(dd);
+        g.random_cases(dd, if thorough { 400 } else { 40 });
+    }
+    // malformed stream: ~3k (quick) / ~20k (thorough) inputs per format
+    let (nbase, nmut) = if thorough { (8, 2200) } else { (2, 1200) };
+    for _ in 0..nbase {
+        g.mal_cases("bcdd", false, nmut); // binary
+    }
+    for dd in ["bdd", "bcdd", "zbdd", "mtbdd"] {
+        for _ in 0..(nbase / 2).max(1) {
+            g.mal_cases(dd, true, nmut / 2);
+        }
+    }
+    g.oom_cases(if thorough { 40 } else { 6 });
+}
 
 fn main() {
     let args: Vec<String> = std::env::args().collect();
